@@ -347,14 +347,6 @@ func checkNoncePair(e *Engine, r *Report, inc *Decorator) {
 		}
 		return nil
 	}
-	findAfter := func(f *ssa.Function, after ssa.Instruction, pred func(ssa.CallInstruction) bool) ssa.CallInstruction {
-		for _, c := range callsIn(f, false, pred) {
-			if dominatesInstr(after, c) {
-				return c
-			}
-		}
-		return nil
-	}
 	setAccPred := func(acc ssa.Value) func(ssa.CallInstruction) bool {
 		return func(c ssa.CallInstruction) bool {
 			if !isMethodNamed(c, "SetAccount") {
@@ -449,9 +441,16 @@ func checkNoncePair(e *Engine, r *Report, inc *Decorator) {
 		}
 	}
 
-	// --- execution side
+	// --- execution side (EthereumTx together with its single-site private helpers)
 	ex := e.Fn(pkgEvmKeeper, "Keeper.EthereumTx")
-	ds := findSetSeq(ex, token.SUB)
+	exReg := e.privateRegion(ex)
+	exSG := exReg.Supergraph()
+	var ds *ssa.Call
+	for _, f := range exReg.Fns {
+		if ds = findSetSeq(f, token.SUB); ds != nil {
+			break
+		}
+	}
 	apply := callsTo(ex, false, CallSpec{pkgEvmKeeper, "Keeper", "ApplyTransaction"})
 	if len(apply) != 1 {
 		r.Undec("Keeper.EthereumTx › ApplyTransaction", e.Pos(ex.Pos()), "expected exactly one call of ApplyTransaction")
@@ -461,31 +460,23 @@ func checkNoncePair(e *Engine, r *Report, inc *Decorator) {
 		r.Bad("Keeper.EthereumTx › undo", e.Pos(ex.Pos()), "no SetSequence(acc.GetSequence()-1) in EthereumTx: the ante increment is never undone and the EVM increments again (nonce +2 per transaction)")
 		return
 	}
-	gflag := boolCallGuards(ex, true, func(c *ssa.Call) bool {
+	gflag := exReg.BoolCallGuards(true, func(c *ssa.Call) bool {
 		return isCallTo(c, CallSpec{pkgEvmKeeper, "Keeper", "IsSenderNonceIncreasedByAnteHandle"})
 	})
-	r.Check(mustPass(ex, ds, gflag), "Keeper.EthereumTx › undo only under the flag", e.Pos(ds.Pos()), "decrement dominated by the true edge of IsSenderNonceIncreasedByAnteHandle", "the nonce decrement is reachable without the nonce-increased flag being set: a message executed without the ante increment moves the nonce backwards")
-	sa := findAfter(ex, ds, setAccPred(ds.Call.Value))
-	fl := findAfter(ex, ds, flagPred(false))
-	via := func(v ssa.CallInstruction) bool {
-		if v == nil {
-			return false
+	r.Check(exSG.MustPass(ds, gflag), "Keeper.EthereumTx › undo only under the flag", e.Pos(ds.Pos()), "decrement dominated by the true edge of IsSenderNonceIncreasedByAnteHandle", "the nonce decrement is reachable without the nonce-increased flag being set: a message executed without the ante increment moves the nonce backwards")
+	via := func(pred func(ssa.CallInstruction) bool) bool {
+		for _, v := range exReg.Calls(pred) {
+			if exSG.PassesBetween(ds, apply[0], v) {
+				return true
+			}
 		}
-		// every path from the decrement to ApplyTransaction passes v: with v's block removed ApplyTransaction is unreachable from ds
-		if v.Block() == ds.Block() || v.Block() == apply[0].Block() {
-			return dominatesInstr(ds, v) && (v.Block() != apply[0].Block() || instrIndex(v) < instrIndex(apply[0]))
-		}
-		del := map[edge]bool{}
-		for _, p := range v.Block().Preds {
-			del[edge{p.Index, v.Block().Index}] = true
-		}
-		return !reachable(ex, ds.Block(), del)[apply[0].Block()]
+		return false
 	}
-	r.Check(via(sa), "Keeper.EthereumTx › undo persisted", e.Pos(ds.Pos()), "SetAccount follows the decrement before ApplyTransaction", "the decremented account is not stored before ApplyTransaction")
-	r.Check(via(fl), "Keeper.EthereumTx › flag reset after undo", e.Pos(ds.Pos()), "flag reset to false between the decrement and ApplyTransaction", "the nonce-increased flag is not reset after the undo: a later message in the same context decrements again")
-	r.Check(!reachesFrom(ex, apply[0], ds), "Keeper.EthereumTx › undo precedes execution", e.Pos(ds.Pos()), "decrement cannot follow ApplyTransaction", "the nonce decrement can run after ApplyTransaction")
+	r.Check(via(setAccPred(ds.Call.Value)), "Keeper.EthereumTx › undo persisted", e.Pos(ds.Pos()), "SetAccount follows the decrement before ApplyTransaction", "the decremented account is not stored before ApplyTransaction")
+	r.Check(via(flagPred(false)), "Keeper.EthereumTx › flag reset after undo", e.Pos(ds.Pos()), "flag reset to false between the decrement and ApplyTransaction", "the nonce-increased flag is not reset after the undo: a later message in the same context decrements again")
+	r.Check(!exSG.ReachesFrom(apply[0], ds), "Keeper.EthereumTx › undo precedes execution", e.Pos(ds.Pos()), "decrement cannot follow ApplyTransaction", "the nonce decrement can run after ApplyTransaction")
 	// account of msg.From
-	sl := backSlice(ds.Call.Value, SliceOpts{ThroughCallArgs: alwaysThrough})
+	sl := exReg.BackSlice(ds.Call.Value, SliceOpts{ThroughCallArgs: alwaysThrough})
 	r.Check(sl.Has(func(x ssa.Value) bool {
 		fv := fieldVar(x)
 		return fv != nil && fv.Name() == "From"
